@@ -282,6 +282,9 @@ theorem tickCb_grow (c : Cfg) (cb) : Grow c (tickCb c cb) := by
     split
     · exact Grow.trans h1 (awaitableDone_grow _ _)
     · exact Grow.trans h1 (Grow.trans (kill_grow _) (gfr rfl rfl rfl))
+    · split
+      · exact Grow.trans h1 (fail_grow _ _)
+      · exact h1
   · exact Grow.rfl' c
 
 /-- every event of the process-control model extends the entered log at its head and keeps "terminated ⇒ closed" -/
@@ -296,8 +299,9 @@ theorem step_grow (P : Prog) (c : Cfg) (ev : Ev) : Grow c (step P c ev).1 := by
   · exact fail_grow c _
   · exact cancelFut_grow c
   · exact complete_grow c _ _
+  · exact gfr rfl rfl rfl
 
-theorem tc_init (name : String) : TC (init name) := by
-  unfold TC init; split <;> simp [terminal, allowed, SObj.label]
+theorem tc_init (nfut : Nat) : TC (init nfut) := by
+  unfold TC init; simp [terminal, allowed, SObj.label]
 
 end PMF
